@@ -964,19 +964,27 @@ def check_property(prop, tier, seed):
 
 
 def do_setup():
+    """warm-up: regenerate, build everything once.  Never the place where a verdict is given: a
+    target that does not build on the current tree is reported by the check it belongs to (as a
+    violation, or — optional theorems and middle-layer bridges — as a note), so setup itself
+    only fails when it cannot run at all."""
     t0 = time.time()
-    with Lock("build"):
-        ensure_gen()
-        sync_coq()
-        ok, lg = coq_make(["all"], timeout=7000)
-        if not ok:
-            print(lg[-6000:])
-            print("setup: Coq build failed")
-            return 1
-        ensure_driver()
-        for v in VARIANTS:
-            ensure_harness(v)
-        ensure_harness("hu", "asan")
+    try:
+        with Lock("build"):
+            ensure_gen()
+            sync_coq()
+            ok, lg = coq_make(["all"], timeout=7000)
+            if not ok:
+                errs = re.findall(r'File "\./([^"]+)", line (\d+)', lg)
+                print("setup: some Coq targets did not build on the current tree (%s); the checks decide what that means"
+                      % ", ".join(sorted({f for f, _ in errs})[:12]))
+            ensure_driver()
+            for v in VARIANTS:
+                ensure_harness(v)
+            ensure_harness("hu", "asan")
+    except BuildError as ex:
+        print("setup: %s: %s" % (ex.stage, ex.detail[-2000:]))
+        print("setup: the checks will report this for the properties it concerns")
     print("setup done in %.1fs" % (time.time() - t0))
     return 0
 
